@@ -1,3 +1,4 @@
+import Cpppo.Generated.Tables
 /-
 Model of `dotdict.py` (`dotdict_base`, property C16): a tree of nested mappings addressed by
 dotted paths.
@@ -15,9 +16,11 @@ Two layers, both mirroring the code:
   `iteritems`/`__dir__`/`__copy__`/`__deepcopy__` over `Tree = leaf | node | list`, by structural
   recursion over the resolved segments.  Dict order is insertion order, as in Python.
 
-`eval` of an indexed segment is modelled for literal indices `name[i][j]…` only (`parseSeg`); any
-other text reaching `eval` yields `Err.oom` ("outside the model"), which the harness recognises on
-the real side by spying on `eval`.
+`eval` of an indexed segment is modelled for literal indices `name[i][j]…` (`parseSeg`) and for the
+documented index expressions (`Ex`, `parseFull`, `evalEx`): integer literals, references to peer values
+(`name`, `ref[expr]`, `ref.attr`), unary minus, `+` and `-`, e.g. `a[a[0].b-1].b`.  Any other text
+reaching `eval` yields `Err.oom` ("outside the model"), which the harness recognises on the real side
+by spying on `eval` with the same grammar.
 
 `Cfg.fixResolve = false` is `_resolve` as it is: when the key reduces to one leading dot and a single
 name (`'.c'`), the loop that skips empty leading terms leaves `rest` holding the text it has just moved
@@ -27,7 +30,7 @@ into `mine`, so `_resolve('.c')` is `('c','c')`.  The library depends on that (a
 `Cfg.fixReserved = true` is the code after `fix: dotdict refuses reserved names for intermediate levels
 too`; `false` the code before it, kept for the witness.  `__copy__` before its `fix:` shares objects and
 needs identities: see `Cpppo.Dotdict.Heap` at the end of this file.
-No imports: this file is linked into the `cpppo_model` driver.
+Imports only the generated constant tables: this file is linked into the `cpppo_model` driver.
 -/
 namespace Cpppo.Dotdict
 
@@ -302,10 +305,177 @@ def putSub : Tree → List Int → Tree → Tree
       | some v => .list (listSet xs j (putSub v r new))
   | t, _ :: _, _ => t
 
-/-- `eval( mine, {'__builtins__':{}}, self )` for `mine = name[i][j]…` -/
+/-! ### index expressions (`name[expr]` with references to peer values) -/
+
+/-- the expressions `eval` is modelled for: `7`, `name`, `ref[expr]`, `ref.attr`, `-atom`, `a+b`, `a-b` -/
+inductive Ex where
+  | int (n : Nat)
+  | name (s : Name)
+  | sub (e i : Ex)
+  | attr (e : Ex) (a : Name)
+  | neg (e : Ex)
+  | add (a b : Ex)
+  | minus (a b : Ex)
+deriving Repr
+
+mutual
+def pExpr : Nat → Name → Option (Ex × Name)
+  | 0, _ => none
+  | f + 1, s =>
+    match pTerm f s with
+    | none => none
+    | some (t, r) => pRest f t r
+def pRest : Nat → Ex → Name → Option (Ex × Name)
+  | 0, _, _ => none
+  | f + 1, acc, '+' :: r =>
+    (match pTerm f r with
+     | none => none
+     | some (t, r') => pRest f (.add acc t) r')
+  | f + 1, acc, '-' :: r =>
+    (match pTerm f r with
+     | none => none
+     | some (t, r') => pRest f (.minus acc t) r')
+  | _ + 1, acc, s => some (acc, s)
+def pTerm : Nat → Name → Option (Ex × Name)
+  | 0, _ => none
+  | f + 1, '-' :: r => (pAtom f r).map fun (e, r') => (.neg e, r')
+  | f + 1, s => pAtom f s
+def pAtom : Nat → Name → Option (Ex × Name)
+  | 0, _ => none
+  | _ + 1, [] => none
+  | f + 1, c :: r =>
+    if isDigit c then
+      let ds := (c :: r).takeWhile isDigit
+      if c ≠ '0' ∨ ds = [c] then some (.int (digitsVal ds 0), (c :: r).dropWhile isDigit) else none
+    else if isIdentStart c then
+      pPost f (.name ((c :: r).takeWhile isIdentChar)) ((c :: r).dropWhile isIdentChar)
+    else none
+def pPost : Nat → Ex → Name → Option (Ex × Name)
+  | 0, _, _ => none
+  | f + 1, e, '[' :: r =>
+    (match pExpr f r with
+     | some (i, ']' :: r') => pPost f (.sub e i) r'
+     | _ => none)
+  | f + 1, e, '.' :: c :: r =>
+    if isIdentStart c then
+      pPost f (.attr e ((c :: r).takeWhile isIdentChar)) ((c :: r).dropWhile isIdentChar)
+    else none
+  | _ + 1, _, ['.'] => none
+  | _ + 1, e, s => some (e, s)
+end
+
+/-- names that are Python keywords, attributes that exist on `int`/`list`/`dotdict` (a method, not a
+stored value) or are dunder names: the expression is outside the model -/
+def exInModel : Ex → Bool
+  | .int _ => true
+  | .name s => !(Generated.pyKeywords.contains s)
+  | .sub e i => exInModel e && exInModel i
+  | .attr e a => exInModel e && !(Generated.evalAttrBlacklist.contains a) &&
+      !(match a with | '_' :: '_' :: _ => true | _ => false)
+  | .neg e => exInModel e
+  | .add a b => exInModel a && exInModel b
+  | .minus a b => exInModel a && exInModel b
+
+/-- the whole text as a modelled expression -/
+def parseFull (s : Name) : Option Ex :=
+  match pExpr (6 * s.length + 10) s with
+  | some (e, []) => if exInModel e then some e else none
+  | _ => none
+
+/-- `value[index]` -/
+def subscriptV (v i : Tree) : Except Err Tree :=
+  match v, i with
+  | .list xs, .leaf n => subscript (.list xs) n
+  | .node _, .node _ => .error .oom      -- `'[' in key` on a dotdict key ends in `eval( '[' )`
+  | _, _ => .error .type
+
+/-- evaluation with the dotdict as locals: a name is an entry of this level (`NameError` if absent),
+`.attr` on a mapping is `__getattr__` (`AttributeError` if absent) -/
+def evalEx (kvs : Kvs) : Ex → Except Err Tree
+  | .int n => .ok (.leaf n)
+  | .name s =>
+    (match lookupK s kvs with
+     | none => .error .name
+     | some v => .ok v)
+  | .sub e i =>
+    (match evalEx kvs e with
+     | .error x => .error x
+     | .ok ve =>
+       match evalEx kvs i with
+       | .error x => .error x
+       | .ok vi => subscriptV ve vi)
+  | .attr e a =>
+    (match evalEx kvs e with
+     | .error x => .error x
+     | .ok (.node sub) =>
+       (match lookupK a sub with
+        | none => .error .attr
+        | some v => .ok v)
+     | .ok _ => .error .attr)
+  | .neg e =>
+    (match evalEx kvs e with
+     | .error x => .error x
+     | .ok (.leaf n) => .ok (.leaf (-n))
+     | .ok _ => .error .type)
+  | .add a b =>
+    (match evalEx kvs a with
+     | .error x => .error x
+     | .ok va =>
+       match evalEx kvs b with
+       | .error x => .error x
+       | .ok vb =>
+         match va, vb with
+         | .leaf x, .leaf y => .ok (.leaf (x + y))
+         | .list xs, .list ys => .ok (.list (xs ++ ys))
+         | _, _ => .error .type)
+  | .minus a b =>
+    (match evalEx kvs a with
+     | .error x => .error x
+     | .ok va =>
+       match evalEx kvs b with
+       | .error x => .error x
+       | .ok vb =>
+         match va, vb with
+         | .leaf x, .leaf y => .ok (.leaf (x - y))
+         | _, _ => .error .type)
+
+/-- where a reference lives: keys and (normalised) list positions from this level -/
+inductive PStep where
+  | key (k : Name) | idx (j : Nat)
+
+def placeEx (kvs : Kvs) : Ex → Option (List PStep)
+  | .name s => some [.key s]
+  | .sub e i =>
+    (match placeEx kvs e, evalEx kvs e, evalEx kvs i with
+     | some p, .ok (.list xs), .ok (.leaf n) => (normIndex xs.length n).map fun j => p ++ [.idx j]
+     | _, _, _ => none)
+  | .attr e a => (placeEx kvs e).map fun p => p ++ [.key a]
+  | _ => none
+
+/-- replace what a place denotes (object mutated in place) -/
+def putPlace : Tree → List PStep → Tree → Tree
+  | _, [], new => new
+  | .node kvs, .key k :: r, new =>
+    (match lookupK k kvs with
+     | some v => .node (insertK k (putPlace v r new) kvs)
+     | none => .node kvs)
+  | .list xs, .idx j :: r, new =>
+    (match listGet xs j with
+     | some v => .list (listSet xs j (putPlace v r new))
+     | none => .list xs)
+  | t, _ :: _, _ => t
+
+def kvsOf : Tree → Kvs
+  | .node kvs => kvs
+  | _ => []
+
+/-- `eval( mine, {'__builtins__':{}}, self )`: literal `name[i][j]…`, else a modelled expression -/
 def evalSeg (kvs : Kvs) (m : Name) : Except Err Tree :=
   match parseSeg m with
-  | none => .error .oom
+  | none =>
+    (match parseFull m with
+     | none => .error .oom
+     | some ex => evalEx kvs ex)
   | some (name, is) =>
     match lookupK name kvs with
     | none => .error .name         -- the KeyError of the locals mapping becomes NameError
@@ -326,7 +496,13 @@ def replaceK (k : Name) (v : Tree) (kvs : Kvs) : Kvs :=
 def segPut (kvs : Kvs) (m : Name) (new : Tree) : Kvs :=
   if '[' ∈ m then
     match parseSeg m with
-    | none => kvs
+    | none =>
+      (match parseFull m with
+       | none => kvs
+       | some ex =>
+         match placeEx kvs ex with
+         | none => kvs
+         | some p => kvsOf (putPlace (.node kvs) p new))
     | some (name, is) =>
       match lookupK name kvs with
       | none => kvs
@@ -374,6 +550,16 @@ def parseFinalIdx (t : Name) : FinalIdx :=
        | _ => .oom)
     | _, _ => .oom
 
+/-- `super().__getitem__( name )[i] = value` -/
+def setIndexed (kvs : Kvs) (name : Name) (i : Int) (tv : Tree) : Kvs × Option Err :=
+  match lookupK name kvs with
+  | none => (kvs, some .key)
+  | some (.list xs) =>
+    (match normIndex xs.length i with
+     | none => (kvs, some .index)
+     | some j => (insertK name (.list (listSet xs j tv)) kvs, none))
+  | some _ => (kvs, some .type)
+
 def setK (cfg : Cfg) : Kvs → List Name → Option Err → Except Err Tree → Kvs × Option Err
   | kvs, [], some e, _ => (kvs, some e)
   | kvs, [], none, _ => (kvs, none)
@@ -402,7 +588,15 @@ def setK (cfg : Cfg) : Kvs → List Name → Option Err → Except Err Tree → 
       | .ok tv =>
         if '[' ∈ m ∧ m.getLast? = some ']' then
           match parseFinalIdx (finalIdxText m) with
-          | .oom => (kvs, some .oom)
+          | .oom =>
+            -- an index expression: evaluated first; only an int index is modelled
+            (match parseFull (finalIdxText m) with
+             | none => (kvs, some .oom)
+             | some ex =>
+               match evalEx kvs ex with
+               | .error e => (kvs, some e)
+               | .ok (.leaf i) => setIndexed kvs (beforeBracket m) i tv
+               | .ok _ => (kvs, some .oom))
           | .syntaxErr => (kvs, some .syntax)
           | .lit i =>
             match lookupK (beforeBracket m) kvs with
